@@ -28,7 +28,13 @@
    Environment assumption (also of the replay): a fork becomes canonical only when it is longer than the chain it
    replaces, so the block number seen by a poll never decreases.
 
-   Ghost / history: hist (the environment schedule: what is replayed into the real code), phantom.
+   Queries do not change the state: GetFirstGERAfterL1InfoTreeIndex(X) is the operator Query(X), checked for every X in
+   every reachable state by the invariants (QueryRight / QueryAtRest; the Rows* invariants are the same statement on
+   the table).  In the replay the driver asks every X after every step of the schedule.
+
+   Ghost / history: hist (the environment schedule: what is replayed into the real code; "track" is one
+   handleNewBlock = AddBlockToTrack ; ProcessBlock), phantom, remlog.  Only hist is hidden by the VIEW (the invariants
+   read the other two).
 *)
 EXTENDS Integers, Sequences, FiniteSets, TLC, Json
 
